@@ -7,10 +7,12 @@ import (
 	"math"
 	"math/big"
 	"strings"
+	"time"
 
 	"verif/internal/ev"
 	"verif/ref"
 
+	"github.com/goblimey/go-ntrip/rtcm/handler"
 	sat4 "github.com/goblimey/go-ntrip/rtcm/type_msm4/satellite"
 	sig4 "github.com/goblimey/go-ntrip/rtcm/type_msm4/signal"
 	msm7 "github.com/goblimey/go-ntrip/rtcm/type_msm7/message"
@@ -419,6 +421,41 @@ func C08(r *ev.Run) {
 		}
 		if c.Wavelength > 0 {
 			run(k)
+		}
+	}
+	// (7) through the handler (GetMessage + Analyse, what display uses): pairs of
+	// messages of the same type, length and CRC value whose fields differ - the
+	// numbers reported for the second must come from its own fields
+	for _, t := range []int{1077, 1087, 1097, 1127} {
+		hd := handler.New(time.Date(2023, 5, 10, 12, 0, 0, 0, time.UTC), slog.LevelInfo)
+		for v := 0; v < 3; v++ {
+			h := &ref.MSMHeader{Type: t, Timestamp: 1000, SatMask: 1 << 63, SigMask: 1 << 30, CellMask: []bool{true}}
+			w, f, rr := uint(70+9*v), uint(100+300*v), int64(-100+90*v)
+			fr, fp, frt := int64(-26835+7000*v), int64(-117960+50000*v), int64(-1170+800*v)
+			p, _ := ref.EncodeMSM(h, []ref.MSMSat{{Whole: w, Ext: 0, Frac: f, Rate: rr}}, []ref.MSMSig{{RangeDelta: fr, PhaseDelta: fp, Lock: 5, CNR: 640, RateDelta: frt}}, 3)
+			frame := ref.PayloadFrameWithCRC(p, 0x313131)
+			total++
+			m, _ := hd.GetMessage(frame)
+			if m == nil {
+				r.Violate(ev.Violation{Fingerprint: "C08 decoded-cell-missing", What: "nil message from the handler", Case: map[string]interface{}{"type": t}})
+				continue
+			}
+			handler.Analyse(m)
+			mm, ok := m.Readable.(*msm7.Message)
+			if !ok || mm == nil || len(mm.Signals) != 1 || len(mm.Signals[0]) != 1 {
+				r.Violate(ev.Violation{Fingerprint: "C08 decoded-cell-missing", What: "handler path: " + m.ErrorMessage, Case: map[string]interface{}{"type": t, "frame": ev.FullHex(frame)}})
+				continue
+			}
+			c := mm.Signals[0][0]
+			k := cellCase{MSM7: true, Whole: w, Frac: f, FineRange: int(fr), FinePhase: int(fp), RoughRate: int(rr), FineRate: int(frt), Wavelength: c.Wavelength, SignalID: c.ID}
+			want := new(big.Rat).Mul(exactMillis(w, f, int(fr), 29), ratC1000)
+			if !closeTo(c.RangeInMetres(), want) {
+				fail(&k, fmt.Sprintf("RANGE reported through the handler for message %d of 3 with equal type, length and CRC (type %d) is not that of its own fields", v+1, t))
+			}
+			wantRate := new(big.Rat).Add(new(big.Rat).SetInt64(rr), big.NewRat(frt, 10000))
+			if !closeTo(c.PhaseRangeRate(), wantRate) {
+				fail(&k, fmt.Sprintf("RATE reported through the handler for message %d of 3 with equal type, length and CRC (type %d) is not that of its own fields", v+1, t))
+			}
 		}
 	}
 	r.Count(total, 0, total, total)
